@@ -3,7 +3,10 @@ use super::job::*;
 use futures::task::{Context, Poll};
 use std::mem;
 
+#[cfg(not(feature = "verif-hooks"))]
 use std::sync::*;
+#[cfg(feature = "verif-hooks")]
+use crate::verif::sync::*;
 
 ///
 /// The unsafe job does not manage the lifetime of its TFn
